@@ -5,6 +5,7 @@ import (
 	"database/sql/driver"
 	"go/ast"
 	"reflect"
+	"strings"
 )
 
 // Expression expression interface
@@ -199,7 +200,11 @@ func (in IN) Build(builder Builder) {
 
 	switch len(in.Values) {
 	case 0:
-		builder.WriteString(" IN (NULL)")
+		if cols, ok := in.Column.([]Column); ok && len(cols) > 1 {
+			builder.WriteString(" IN ((NULL" + strings.Repeat(",NULL", len(cols)-1) + "))")
+		} else {
+			builder.WriteString(" IN (NULL)")
+		}
 	case 1:
 		if _, ok := in.Values[0].([]interface{}); !ok {
 			builder.WriteString(" = ")
